@@ -170,6 +170,13 @@ func RunOne(t *testing.T, hname, prop string, params map[string]string, tape *si
 			}()
 			frugal.SimResetOpIDs()
 			simrt.ResetPools()
+			// the order in which `range` walks a map in the code under test is a decision of the run
+			switch k := tape.Intn("maporder", 4); k {
+			case 0, 1:
+				frugal.SimSetMapOrder(uint64(k))
+			default:
+				frugal.SimSetMapOrder(2 + uint64(tape.Intn("maporder", 1<<30)))
+			}
 			rc = &RunCtx{Prop: prop, Harness: hname, Seed: tape.Seed, Tape: tape, Sample: map[string]any{}, Params: params}
 			h(rc)
 			if rc.Sim != nil {
